@@ -154,6 +154,39 @@ def structured_strings():
     return out
 
 
+def joiner_strings():
+    """CheckJoiners x CheckBidi: every string of up to 3 symbols over the joining / directional part of the fragment
+    (dual- and right-joining Arabic letters, a Hebrew letter, AN / EN digits, a consonant + virama, a transparent mark,
+    ZWNJ, ZWJ, an LTR letter, a digit, a hyphen), and the 4-symbol strings with a joiner inside over a smaller alphabet"""
+    J = ['\u200c', '\u200d']
+    A = ['\u0628', '\u0627', '\u05d0', '\u0661', '\u06f1', '\u0915', '\u094d', '\u0301', 'a', '1', '-'] + J
+    B = ['\u0628', '\u0627', '\u094d', '\u0301', 'a', '\u05d0']
+    out = []
+    for x in A:
+        out.append(x)
+        for y in A:
+            out.append(x + y)
+            for z in A:
+                out.append(x + y + z)
+    for j in J:
+        for x in B:
+            for y in B:
+                for z in B:
+                    out.append(x + j + y + z)
+                    out.append(x + y + j + z)
+    return out
+
+
+def w_joiners(ops, rng, n):
+    for s in joiner_strings():
+        op_a(ops, s)
+    # and as one label of a domain whose other label is LTR / RTL (a Bidi domain is decided by ANY label)
+    sub = [s for s in joiner_strings() if len(s) == 3 and ('\u200c' in s or '\u200d' in s)]
+    for s in sub:
+        op_a(ops, s + '.com')
+        op_a(ops, s + '.\u05d0')
+
+
 def w_structured(ops, rng, n):
     for s in structured_strings():
         op_a(ops, s)
